@@ -119,7 +119,7 @@ AcceptsProps(o, d) ==
        /\ \A i \in 1..Len(d.es) : LET k == d.es[i][1] IN PropKeyRelevant(d.es, k) =>
              /\ ObjHas(o.es, k)
              /\ LET ov == ObjGet(o.es, k)  dv == d.es[i][2] IN
-                CASE k = "class" /\ dv.t = "str" -> ov.t = "str" /\ ClassTokens(ov.cp, 1, <<>>) = ClassTokens(dv.cp, 1, <<>>)
+                CASE k = "class" /\ dv.t = "str" -> ov.t = "str" /\ SeqToSet(ClassTokens(ov.cp, 1, <<>>)) = SeqToSet(ClassTokens(dv.cp, 1, <<>>))
                   [] IsOnKey(k) /\ dv.t # "upd" -> ListenerSet(ov) = ListenerSet(dv)
                   [] OTHER -> Accepts(ov, dv)
        /\ \A i \in 1..Len(o.es) : LET k == o.es[i][1] IN PropKeyRelevant(o.es, k) => ObjHas(d.es, k) /\ PropKeyRelevant(d.es, k)
